@@ -487,11 +487,37 @@ class _Ctx:
             ast.fix_missing_locations(o)
         return out
 
+    @staticmethod
+    def _desugar_ifexp(s: ast.stmt) -> Optional[List[ast.stmt]]:
+        """`return a if c else b` / `x = a if c else b` as the if-statement they abbreviate (c is evaluated once and only the
+        selected arm is evaluated in both spellings), so that every rule sees one value per path."""
+        if isinstance(s, ast.Return) and isinstance(s.value, ast.IfExp):
+            e = s.value
+            out = ast.If(test=e.test, body=[ast.Return(value=e.body)], orelse=[ast.Return(value=e.orelse)])
+        elif isinstance(s, ast.Assign) and isinstance(s.value, ast.IfExp) and len(s.targets) == 1 and isinstance(s.targets[0], ast.Name):
+            e = s.value
+            t = e.test
+            while isinstance(t, ast.UnaryOp) and isinstance(t.op, ast.Not):
+                t = t.operand
+            if isinstance(t, ast.Compare) and len(t.ops) == 1 and isinstance(t.ops[0], (ast.Lt, ast.LtE, ast.Gt, ast.GtE)) and \
+                    {ast.dump(t.left), ast.dump(t.comparators[0])} == {ast.dump(e.body), ast.dump(e.orelse)}:
+                return None     # a min / max written as a conditional expression: kept as one value (term-level normal form)
+            import copy
+            out = ast.If(test=e.test, body=[ast.Assign(targets=[copy.deepcopy(s.targets[0])], value=e.body)],
+                         orelse=[ast.Assign(targets=[copy.deepcopy(s.targets[0])], value=e.orelse)])
+        else:
+            return None
+        ast.copy_location(out, s)
+        for ch in out.body + out.orelse:
+            ast.copy_location(ch, s)
+        ast.fix_missing_locations(out)
+        return [out]
+
     def block(self, stmts: List[ast.stmt], states: List[State]) -> List[State]:
         for s in stmts:
             ds = getattr(s, '_desugared', None)
             if ds is None:
-                ds = self._desugar_setdefault(s) or False
+                ds = self._desugar_setdefault(s) or self._desugar_ifexp(s) or False
                 try:
                     s._desugared = ds
                 except Exception:
@@ -1076,7 +1102,64 @@ class _Ctx:
             outs.extend(self.block(s.body, [p]) if p.status == 'normal' else [p])
         return outs
 
+    def _try_key_lookup(self, s: ast.Try, st: State):
+        """try: <one statement reading / deleting d[k]>  except KeyError: ...   ->  (k term, d term): the handler runs exactly
+        when k is not in d, the rest of the try statement exactly when it is."""
+        if len(s.body) != 1 or not s.handlers:
+            return None
+        names = set()
+        for h in s.handlers:
+            if h.type is None:
+                return None
+            names |= {x.strip() for x in ast.unparse(h.type).strip('()').split(',')}
+        if not names <= {'KeyError', 'LookupError'}:
+            return None
+        b = s.body[0]
+        sub = None
+        if isinstance(b, (ast.Assign, ast.Expr, ast.Return)) and isinstance(b.value, ast.Subscript):
+            sub = b.value
+        elif isinstance(b, ast.Delete) and len(b.targets) == 1 and isinstance(b.targets[0], ast.Subscript):
+            sub = b.targets[0]
+        if sub is None or any(isinstance(y, ast.Call) for y in ast.walk(sub)) or isinstance(sub.slice, ast.Slice):
+            return None
+        bt = self.ti.expr_type(sub.value, self.fn, self.types)
+        if not (bt and bt[0] == 'dict'):
+            return None
+        return self.ev(sub.slice, st), self.versioned(st, self.ev(sub.value, st))
+
     def st_Try(self, s, st):
+        lk = self._try_key_lookup(s, st)
+        if lk is not None:
+            present = AIn(lk[0], lk[1])
+            outs = []
+            d = self.decide(st, present) if self.opts.prune else None
+            if d is not False:
+                n = st.fork() if d is None else st
+                self.emit(n, 'try', s)
+                self.emit(n, 'cond', s, formula=present, taken=True, raw=s.body[0])
+                self.assert_cond(n, present)
+                for b in self.block(s.body, [n]):
+                    outs.extend(self.block(s.orelse, [b]) if (b.status == 'normal' and s.orelse) else [b])
+            if d is not True:
+                e = st
+                self.emit(e, 'cond', s, formula=f_not(present), taken=False, raw=s.body[0])
+                self.assert_cond(e, f_not(present))
+                h = s.handlers[0]
+                self.emit(e, 'except', h, type=ast.unparse(h.type), explicit=False)
+                if h.name:
+                    e.env[h.name] = Sym(h.name)
+                outs.extend(self.block(h.body, [e]))
+            if s.finalbody:
+                fin = []
+                for o in outs:
+                    saved = o.status
+                    o.status = 'normal'
+                    for f2 in self.block(s.finalbody, [o]):
+                        if f2.status == 'normal':
+                            f2.status = saved
+                        fin.append(f2)
+                outs = fin
+            return outs
         outs = []
         # normal completion of the body
         n = st.fork()
@@ -1585,7 +1668,29 @@ class _Ctx:
         if isinstance(a, (BoolT, Const)) and isinstance(b, (BoolT, Const)) and \
                 all(isinstance(x, BoolT) or isinstance(x.value, bool) for x in (a, b)):
             return BoolT(f_or(f_and(c, self.formula(a)), f_and(f_not(c), self.formula(b))))
+        mm = self._as_minmax(c, a, b)
+        if mm is not None:
+            return mm
         return IfT(c, a, b)
+
+    def _as_minmax(self, c: Formula, a: Term, b: Term) -> Optional[Term]:
+        """`a if a > b else b` is max(a, b), `a if a < b else b` is min(a, b) (also with >=, <= and the operands swapped):
+        the conditional spelling of a clamp has the same normal form as the min/max spelling."""
+        numeric = (Num, Poly, Sym, Attr, Sub)
+        if not (isinstance(a, numeric + (App,)) and isinstance(b, numeric + (App,))):
+            return None
+        for x in (a, b):
+            if isinstance(x, App) and x.fn not in ('min', 'max', 'len', 'abs', 'int', 'float', 'round'):
+                return None
+        if not isinstance(c, (ACmp, FNot)):
+            return None
+        try:
+            for op, fn in (('>', 'max'), ('>=', 'max'), ('<', 'min'), ('<=', 'min')):
+                if c == mk_cmp(a, op, b) or f_not(c) == f_not(mk_cmp(a, op, b)):
+                    return mk_minmax(fn, [a, b])
+        except Exception:
+            return None
+        return None
 
     def ex_UnaryOp(self, e, st):
         v = self.ev(e.operand, st)
